@@ -142,6 +142,28 @@ def code_sweep_histories(rng, syss, modes=("lo", "hi", "rand-hi"), per_hist=12, 
     return out
 
 
+def ot_sweep_histories(rng, syss, per_hist=6, prefix=60):
+    """OpenTherm bridges of a neighbour: for EVERY data-id of the library's own OpenTherm table an RP|3220 (read-ack, write-ack, data-invalid,
+    unknown-id with a correct parity bit) from an OTB to its controller, a few per history, appended to a clean prefix of a recorded system."""
+    from ramses_tx.opentherm import OPENTHERM_MESSAGES, parity  # noqa: PLC0415
+
+    vs = []
+    for did in sorted(OPENTHERM_MESSAGES):
+        for mtype in (4, 4, 5, 6, 7):
+            val = rng.choice((0x0000, 0x0100, 0x1400, 0x3C00, 0x7FFF, 0xFFFF, rng.randrange(65536)))
+            word = (mtype << 28) | (int(did) << 16) | val
+            word |= parity(word & 0x7FFFFFFF) << 31
+            ctl = rng.choice(("01:145038", "01:078710", "18:126620"))
+            otb = f"10:{100000 + len(vs):06d}"          # every bridge is heard exactly once: that one reading is all the library knows of it
+            vs.append(f"2026-01-01T00:00:00.000000 045 RP --- {otb} {ctl} --:------ 3220 005 00{word:08X}")
+    rng.shuffle(vs)
+    out = []
+    for i in range(0, len(vs), per_hist):
+        name, base, cfg = syss[(i // per_hist) % len(syss)]
+        out.append((retime(base[:prefix] + vs[i:i + per_hist]), "ot-sweep", name, cfg))
+    return out
+
+
 KINDS = ["none", "dup", "del", "shuffle", "splice", "mutate", "mutate", "prefix"]
 
 
